@@ -51,6 +51,17 @@ class Struct:
         return '%s{%r}' % (self.name, self.fields)
 
 
+class Coroutine(Struct):
+    """The state object of an `async fn` body: captured arguments as fields plus the resume state (0 = not started)."""
+
+    def __init__(self, name, fields, state=0):
+        Struct.__init__(self, name, fields)
+        self.state = state
+
+    def __repr__(self):
+        return 'Coroutine(%s,state=%d)' % (self.name, self.state)
+
+
 class Enum:
     def __init__(self, ty, variant, fields=()):
         self.ty, self.variant, self.fields = ty, variant, list(fields)
@@ -319,6 +330,12 @@ class VM:
             return None
         mm = re.match(r'discriminant\((.+)\) = (\d+)$', s)
         if mm:
+            v = self.read(m, fr, mm.group(1))
+            if isinstance(v, Ref):
+                v = self._get(v.cell, v.path)
+            if isinstance(v, Coroutine):
+                v.state = int(mm.group(2))
+                return None
             raise Unsupported('SetDiscriminant')
         if s.startswith('Deinit('):
             return None
@@ -772,6 +789,8 @@ class VM:
         v = self.read(m, fr, p)
         if isinstance(v, Ref):
             v = self._get(v.cell, v.path)
+        if isinstance(v, Coroutine):
+            return mk_int(v.state, 'u32')
         if isinstance(v, Enum):
             return mk_int(self.variant_index(v), 'isize')
         if isinstance(v, SymEnum):
